@@ -60,7 +60,7 @@ int LLVMFuzzerTestOneInput(const uint8_t *data, size_t size)
     ssin = a; smtpto = b; smtpfrom = c;
   }
   fz_sso.p = 0;
-  flagcritical = 0; smtptext.len = 0;
+  flagcritical = 0; FZ_FRESH(smtptext);
   partner.d[0] = 10; partner.d[1] = 1; partner.d[2] = 2; partner.d[3] = 3;
   if (!saa_readyplus(&reciplist, 4)) abort();
   if (!reciplist.len) for (i = 0; i < 4; i++) { reciplist.sa[i] = sauninit; if (!stralloc_copys(&reciplist.sa[i], rc[i])) abort(); }
